@@ -15,6 +15,10 @@ SHARD = 40
 PAR_MIN = 4
 SHRINK_BUDGET_S = 60
 SWEEP = [2, 2 ** 4, 2 ** 8, 2 ** 16, 2 ** 32, 2 ** 63]
+# Only the queries the property lists are made (byte alignment -> divisor 8, equality -> 32, constructor assertions -> 1, 8).
+# Arbitrary `% d` queries are NOT part of C16: on the unchanged tree `% 56` of a nested variable array of sub-byte elements
+# legitimately enumerates millions of multisets (that cost is bounded in the capacity, which is all C16 claims).
+QUERIED = [1, 8, 32]
 RULE = ("a case is one random composite definition (nesting depth 1-4, sub-byte and byte-aligned elements, delimited members) written as "
         "DSDL files, instantiated with every capacity/extent scale of the sweep 2**1, 2**4, 2**8, 2**16, 2**32, 2**63 for its marked "
         "arrays/extents; for each instance the namespace is read twice and every composite is queried: bit_length_set.min/max, extent, "
@@ -244,6 +248,7 @@ def run_impl(cases):
                 for a, b in zip(first, second):
                     bls = a.bit_length_set
                     _ = (bls.min, bls.max, a.extent, bls.fixed_length, bls.is_aligned_at_byte())
+
                     for _f, off in a.iterate_fields_with_offsets():
                         _ = off.is_aligned_at_byte()
                     if not (a == b) or hash(a) != hash(b):
@@ -268,9 +273,10 @@ def run_impl(cases):
         # totals must not depend on the capacity scale once it exceeds twice the largest divisor in use AND the implicit
         # length prefixes have the same residues: capacity 2**8 has a 16-bit prefix (16 mod 32 != 0), capacities from 2**16 on
         # have 32- or 64-bit prefixes (both 0 modulo every divisor in use), so only those instances are comparable
-        big = [v["total"] for v in variants if v["cap"] >= 2 ** 16]
+        # (the extra divisors 56, 88, ... are not comparable across the sweep: capacities are not congruent modulo them)
+        big = [sum(c["local"] for c in v["calls"] if c["d"] in (1, 8, 32)) for v in variants if v["cap"] >= 2 ** 16]
         if len(set(big)) > 1:
-            fail = "enumeration count depends on capacity: %s" % [(v["cap"], v["total"]) for v in variants]
+            fail = "enumeration count for the divisors 1, 8, 32 depends on capacity: %s" % [(v["cap"], sum(c["local"] for c in v["calls"] if c["d"] in (1, 8, 32))) for v in variants]
         if any(v["expands"] for v in variants):
             fail = "numeric expansion was invoked %s times" % [v["expands"] for v in variants]
         if fail:
@@ -284,7 +290,8 @@ def emit(case, obs):
     for v in obs["variants"]:
         calls = G.lst(["{| c_kind := %s; c_div := %s; c_k := %s; c_sizes := %s; c_local := %s; c_out := %s |}" % (
             c["kind"], G.z(c["d"]), G.z(c["k"]), G.zlist(c["sizes"]), G.z(c["local"]), G.z(c["out"])) for c in v["calls"]])
-        vs.append("{| v_cap := %s; v_total := %s; v_expands := %s; v_calls := %s |}" % (G.z(v["cap"]), G.z(v["total"]), G.z(v["expands"]), calls))
+        vs.append("{| v_cap := %s; v_total := %s; v_expands := %s; v_queried := %s; v_calls := %s |}" % (
+            G.z(v["cap"]), G.z(v["total"]), G.z(v["expands"]), G.zlist(QUERIED), calls))
     return G.lst(vs)
 
 
